@@ -178,8 +178,12 @@ def run_tlc(module, cfg, cwd, workers=4, simulate=None, depth=None, env=None, ti
 
 
 def sany(path):
-    p = subprocess.run(["java", "-cp", TLA_CP, "tla2sany.SANY", os.path.basename(path)],
+    libs = ":".join(sorted(os.path.join(SPEC, d) for d in os.listdir(SPEC) if os.path.isdir(os.path.join(SPEC, d))))
+    jtmp = os.path.join(WORK, "sany-tmp-%d" % os.getpid())
+    os.makedirs(jtmp, exist_ok=True)
+    p = subprocess.run(["java", "-DTLA-Library=" + libs, "-Djava.io.tmpdir=" + jtmp, "-cp", TLA_CP, "tla2sany.SANY", os.path.basename(path)],
                        cwd=os.path.dirname(path), stdout=subprocess.PIPE, stderr=subprocess.STDOUT, text=True)
+    shutil.rmtree(jtmp, ignore_errors=True)
     ok = p.returncode == 0 and "Semantic errors" not in p.stdout and "Fatal errors" not in p.stdout \
         and "*** Errors" not in p.stdout and "Parsing or semantic analysis failed" not in p.stdout
     return ok, p.stdout
